@@ -1943,6 +1943,11 @@ namespace xsimd
                 {
                     return b;
                 }
+
+                static XSIMD_INLINE batch_type invalid(batch_type const&, batch_type const&, batch_type const& r) noexcept
+                {
+                    return r;
+                }
             };
 
             template <class T, class A>
@@ -1967,16 +1972,39 @@ namespace xsimd
                 using int_batch = typename bitwise_cast_batch<T, A>::type;
                 using int_type = typename int_batch::value_type;
 
+                // The bit pattern of a negative value grows with its magnitude, so the step
+                // towards +inf increments the pattern of a positive value and decrements the
+                // pattern of a negative one; from +-0 the neighbour is the smallest denormal.
                 static XSIMD_INLINE batch_type next(const batch_type& b) noexcept
                 {
-                    batch_type n = ::xsimd::bitwise_cast<T>(::xsimd::bitwise_cast<int_type>(b) + int_type(1));
+                    const int_batch ib = ::xsimd::bitwise_cast<int_type>(b);
+                    batch_type up = ::xsimd::bitwise_cast<T>(ib + int_type(1));
+                    batch_type down = ::xsimd::bitwise_cast<T>(ib - int_type(1));
+                    batch_type denorm = ::xsimd::bitwise_cast<T>(int_batch(int_type(1)));
+                    batch_type n = select(b < batch_type(0.), down, select(b == batch_type(0.), denorm, up));
                     return select(b == constants::infinity<batch_type>(), b, n);
                 }
 
                 static XSIMD_INLINE batch_type prev(const batch_type& b) noexcept
                 {
-                    batch_type p = ::xsimd::bitwise_cast<T>(::xsimd::bitwise_cast<int_type>(b) - int_type(1));
+                    const int_batch ib = ::xsimd::bitwise_cast<int_type>(b);
+                    batch_type up = ::xsimd::bitwise_cast<T>(ib + int_type(1));
+                    batch_type down = ::xsimd::bitwise_cast<T>(ib - int_type(1));
+                    batch_type denorm = ::xsimd::bitwise_cast<T>(int_batch(int_type(1)));
+                    batch_type p = select(b < batch_type(0.), up, select(b == batch_type(0.), -denorm, down));
                     return select(b == constants::minusinfinity<batch_type>(), b, p);
+                }
+
+                // a NaN operand yields NaN
+                static XSIMD_INLINE batch_type invalid(batch_type const& from, batch_type const& to, batch_type const& r) noexcept
+                {
+#ifndef XSIMD_NO_INVALIDS
+                    return select(isnan(from) || isnan(to), constants::nan<batch_type>(), r);
+#else
+                    (void)from;
+                    (void)to;
+                    return r;
+#endif
                 }
             };
         }
@@ -1984,8 +2012,9 @@ namespace xsimd
         XSIMD_INLINE batch<T, A> nextafter(batch<T, A> const& from, batch<T, A> const& to, requires_arch<generic>) noexcept
         {
             using kernel = detail::nextafter_kernel<T, A>;
-            return select(from == to, from,
-                          select(to > from, kernel::next(from), kernel::prev(from)));
+            return kernel::invalid(from, to,
+                                   select(from == to, from,
+                                          select(to > from, kernel::next(from), kernel::prev(from))));
         }
 
         // pow
